@@ -401,8 +401,8 @@ def validate_sample(binary, s):
 
 
 BOUNDS = {
-    'quick': dict(max_changes=3, max_ranges=1, validate=30),
-    'thorough': dict(max_changes=4, max_ranges=2, validate=150),
+    'quick': dict(max_changes=3, max_ranges=1, validate=30, many_ranges=[(3,), (4,), (1, 3)]),
+    'thorough': dict(max_changes=4, max_ranges=2, validate=150, many_ranges=[(3,), (4,), (5,), (1, 3), (3, 1), (0, 3), (3, 3), (2, 4)]),
 }
 
 
@@ -412,6 +412,9 @@ def main(tier):
     binary = driver.real_binary()
     driver.load_program()
     shapes = gen_shapes(b['max_changes'], b['max_ranges'])
+    # a few shapes with many character ranges on one line (binary searches over the ranges need >= 3
+    # probes to go wrong at a boundary)
+    shapes += [x for x in b['many_ranges'] if x not in shapes]
     rnd = random.Random(seed())
     rnd.shuffle(shapes)
     results = pmap(run_shape, [(s, True) for s in shapes])
